@@ -13,9 +13,9 @@ Record entry := mkE {
   e_kind : Z;          (* 0 regular file, 1 directory (f.is_directory), 2 symbolic link (f.is_symlink) *)
   e_data : str;        (* content; for a link the UTF-8 decoded target text *)
   e_empty : bool;      (* f.emptystream *)
-  e_mtime : Z;         (* properties["lastwritetime"]: 0 = no such key (skipped), 1 = a time stamp (os.utime),
-                          otherwise None, as the reader leaves it for an undefined entry of the time
-                          vector: ArchiveTimestamp(None) raises TypeError in the post-pass *)
+  e_mtime : Z;         (* properties.get("lastwritetime"): 1 = a time stamp (os.utime in the post-pass); anything else =
+                          no such key, or None as the reader leaves it for an undefined entry of the time vector:
+                          skipped *)
   e_chmod : bool       (* posix_mode present (or read-only attribute): chmod in the post-pass *)
 }.
 
@@ -121,15 +121,11 @@ Definition extract_one (eo : entry * option ppath) : M unit :=
     let* _ := path_mkdir cwd (mkdir_fuel (pparent fileish)) (pparent fileish) true true in
     if e_empty e then path_touch cwd fileish
     else if e_kind e =? 2 then
-      match dest with
-      | None => raise XAttr                       (* is_path_valid(..., None): None.is_absolute() *)
-      | Some path =>
-        if is_path_valid (pjoin (pparent fileish) (e_data e)) cwd path then
-          let* ex := path_exists cwd fileish in
-          let* _ := (if ex then sys_unlink cwd fileish else ret tt) in
-          sys_symlink cwd (pparse (e_data e)) fileish
-        else raise XBad7z
-      end
+      if is_path_valid (pjoin (pparent fileish) (e_data e)) cwd dest then
+        let* ex := path_exists cwd fileish in
+        let* _ := (if ex then sys_unlink cwd fileish else ret tt) in
+        sys_symlink cwd (pparse (e_data e)) fileish
+      else raise XBad7z
     else sys_open_wb cwd fileish (e_data e)
   end.
 
@@ -144,7 +140,7 @@ Fixpoint post_pass (l : list (ppath * entry)) : M unit :=
   match l with
   | [] => ret tt
   | (o, e) :: l' =>
-    let* _ := (if e_mtime e =? 0 then ret tt else if e_mtime e =? 1 then sys_utime cwd o else raise XType) in
+    let* _ := (if e_mtime e =? 1 then sys_utime cwd o else ret tt) in
     let* _ := (if e_chmod e then sys_chmod cwd o else ret tt) in
     post_pass l'
   end.
@@ -199,8 +195,8 @@ Definition fs_dispatch (fn : Z) (a : tree) : tree :=
   (* FN 121 fs_sanitize : (name cwd dest?) -> () | (ppath) *)
   | 121 => t_opt t_ppath (get_sanitized_output_path (of_str (tnth a 0)) (of_rpath (tnth a 1))
                                                      (of_opt of_ppath (tnth a 2)))
-  (* FN 122 fs_is_path_valid : (target cwd parent) -> bool *)
-  | 122 => t_bool (is_path_valid (of_ppath (tnth a 0)) (of_rpath (tnth a 1)) (of_ppath (tnth a 2)))
+  (* FN 122 fs_is_path_valid : (target cwd parent?) -> bool *)
+  | 122 => t_bool (is_path_valid (of_ppath (tnth a 0)) (of_rpath (tnth a 1)) (of_opt of_ppath (tnth a 2)))
   (* FN 123 fs_pparse : str -> ppath *)
   | 123 => t_ppath (pparse (of_str a))
   (* FN 124 fs_canonical : ppath -> ppath *)
